@@ -118,6 +118,22 @@ SPEC_FUNS["casefold"] = SpecFun("casefold", lambda s: smt.casefold(s), lambda s:
 SPEC_FUNS["str_to_int"] = SpecFun("str_to_int", lambda s: smt.int_of_str(s), int, "int")
 
 
+def _nq_py(typ):
+    from doctrans.defaults_utils import needs_quoting
+
+    return needs_quoting(typ)
+
+
+def _ed_doc_py(line):
+    from doctrans.defaults_utils import extract_default
+
+    return extract_default(line, emit_default_doc=False)[0]
+
+
+SPEC_FUNS["nq_spec"] = SpecFun("nq_spec", lambda t: z3.Function("nq_spec", S, B)(t), _nq_py, "bool")
+SPEC_FUNS["ed_doc"] = SpecFun("ed_doc", lambda t: z3.Function("ed_doc", S, S)(t), _ed_doc_py, "str")
+
+
 def _py_int_ok(s):
     try:
         int(s)
